@@ -60,7 +60,11 @@ def trojansource(context):
     context.file_data.seek(0)
     data = context.file_data.read()
     encoding, _ = detect_encoding(io.BytesIO(data).readline)
-    with io.TextIOWrapper(io.BytesIO(data), encoding=encoding) as src_file:
+    # (bytes the encoding cannot decode - the parser accepts them in a comment -
+    # are no reason to give up the search)
+    with io.TextIOWrapper(
+        io.BytesIO(data), encoding=encoding, errors="replace"
+    ) as src_file:
         for lineno, line in enumerate(src_file.readlines(), start=1):
             for char in BIDI_CHARACTERS:
                 try:
